@@ -260,7 +260,8 @@ prop(
     subcmds=[("c10", {"quick": 1600, "thorough": 60000, "search": 6400}), ("c10r", {"quick": 320, "thorough": 16000, "search": 1600})],
     theorems=["C10_node_pack_roundtrip", "C10_unrepresentable_rejected", "C10_insert_reads_back_after_commit", "C10_insert_reads_back_after_processing", "C10_shared_node_survives_dereference", "C10_unshared_leaf_is_reclaimed", "C10_invalid_operation_rejects_without_trace",
               "Counters.C10_counter_lookup_is_reference_count", "Counters.C10_reference_account", "Counters.C10_tables_hold_the_models_count_map", "Counters.C10_count_map_steps_are_the_models",
-              "Forest.C10_count_is_number_of_references", "Forest.C10_reachable_nodes_are_stored", "Forest.C10_all_dereferenced_is_empty", "Forest.C10_forest_invariant_kept"],
+              "Forest.C10_count_is_number_of_references", "Forest.C10_reachable_nodes_are_stored", "Forest.C10_all_dereferenced_is_empty", "Forest.C10_forest_invariant_kept",
+              "Pipelined.C10_pipelined_count_is_number_of_references", "Pipelined.C10_pipelined_reachable_nodes_are_stored", "Pipelined.C10_pipelined_all_dereferenced_is_empty", "Pipelined.C10_processing_keeps_the_forest"],
     counts={"quick": 1600, "thorough": 60000, "search": 6400},
     rule="(c10r, counter level) hook H7 makes a new reference count table small (2-8 chunks of 32 counters; 'deep' third: 2 chunks, 200-250 leaves, no reindex step while "
          "the sharers pile up, so that three tables coexist); a base tree with 40-250 leaves, then 60-320 drained transactions: insert a sharer (a root with 1-4 EXISTING leaves: each gains a "
@@ -269,17 +270,18 @@ prop(
          "of the leaf, a leaf with one reference has no counter anywhere, sharers and leaves read back; at the end every sharer is dereferenced (no counter may remain), then the base tree "
          "(no value entry may remain). (c10) " + MT_RULE,
     assumptions=["counter level: the hash of an address (SipHash-2-4 with a zero key, computed by the harness with the siphasher crate) is an input of the model; the table logic is exercised with small tables (hook H7) - with the built-in 65536 chunks growth needs about a million shared nodes; the reindex batch limit (8192 counters) is in the model and in the proof but is never reached by tables of this size; a reindex batch is collected and applied in one step (it is, by the one log worker); the hash index of the column does not grow in these histories (index and counter tables share the reindex queue)",
-                 "forest theorems (counts = references, reachable nodes stored, nothing left after the last dereference): for histories of single-operation transactions, each processed before the next is made, no reader lock held, column not append-only, an inserted tree naming only stored nodes as existing children under a free root key; several operations per transaction, pipelining and locks are tied by c10 only", "node identities are abstract in the model (the code's addresses): observations are compared after canonical renumbering, existing children are named by paths",
+                 "forest theorems (counts = references, reachable nodes stored and readable, nothing left after the last root): for histories of SINGLE-operation transactions on a column that is not append-only - made and processed at any moment, any number queued, reader locks taken and released (postponed dereferences included), crashes -, under the hypothesis that every processed commit finds what its author saw (an insertion its root key free and its existing children stored, a dereference the root it read: head_ok); several operations per transaction and clean restarts with a non-empty queue are tied by c10 only", "node identities are abstract in the model (the code's addresses): observations are compared after canonical renumbering, existing children are named by paths",
                  "the slot allocator (claim_entries) is not modelled; its effects are visible only through the entry count (that is how F7, now repaired, was seen)"],
     explanation="multitree model with abstract node identities, commit-time preparation, counted sharing, recursive dereference; node packing proved; tie by full traversals after every step",
 )
 prop(
     id="C11", module="Properties.C11", vfile="Properties/C11.v", level="proof", subcmd="c10", beyond_known=True,
-    theorems=["C11_locked_tree_stable", "C11_order_preserved_refuted", "C11_postponed_removals_complete", "C11_old_deferral_rule_rotates_for_ever"],
+    theorems=["C11_locked_tree_stable", "C11_order_preserved_refuted", "C11_postponed_removals_complete", "C11_old_deferral_rule_rotates_for_ever",
+              "Held.C11_locked_tree_root_is_kept", "Held.C11_locked_tree_stays_readable", "Held.C11_locked_tree_is_unchanged", "Held.C11_without_locks_commit_order_is_kept", "Held.C11_commit_without_lock_makes_nobody_wait"],
     counts={"quick": 1600, "thorough": 60000, "search": 6400},
     rule=MT_RULE + "; the C11 oracle additionally snapshots a tree when its lock is taken and demands the identical traversal at every step until the lock is released, "
          "and demands that the plain column always equals the fold of the accepted transactions in commit order",
-    assumptions=["locks are taken and released between pipeline steps by the harness thread (stepping API); instruction-level interleavings of lock acquisition with the log worker are outside the model (C05)"],
+    assumptions=["Held.* (a locked tree keeps its root and all its nodes readable through every pipelined schedule) are stated for single-operation transactions under head_ok (every processed commit finds what its author saw); where F4 lets a postponed transaction be overtaken that hypothesis can fail, as the finding shows", "locks are taken and released between pipeline steps by the harness thread (stepping API); instruction-level interleavings of lock acquisition with the log worker are outside the model (C05)"],
     explanation="deferral modelled as in defer_commit (re-queue at the back under a new identity, overlay re-copied); stability of a locked tree proved; order preservation REFUTED with a witness (finding F4)",
 )
 
